@@ -432,7 +432,9 @@ Fixpoint trim_zeros (fuel : nat) (N p zp : Z) : Z * Z :=
 Definition amt_digits (cp : comm -> Z) (a : amount) : Z * Z :=
   let p := display_prec cp a in
   let q := Qred (aq a) in
-  let N := print_scaled (Qnum q) (Zpos (Qden q)) p in
+  (* a quantity with at most p decimals prints exactly; otherwise the MPFR path of Base/Round.v *)
+  let N := if (Qnum q * 10 ^ p) mod Zpos (Qden q) =? 0 then Qnum q * 10 ^ p / Zpos (Qden q)
+           else print_scaled (Qnum q) (Zpos (Qden q)) p in
   trim_zeros (Z.to_nat p) N p (match acomm a with Some c => cp c | None => 0 end).
 
 Definition q_of_scaled (N p : Z) : Q :=
@@ -520,6 +522,34 @@ Definition x_eqb (v w : value) : res bool :=
   | _, _ => v_eqb v w
   end.
 
+(* value_t::is_less_than converts a BALANCE operand with val.to_amount(), i.e.
+   in_place_cast(AMOUNT), which turns an EMPTY balance into the amount 0 (value.cc
+   in_place_cast; Model/Amount.v's bal_to_amount rejects it) *)
+Definition zero_bal (v : value) : value :=
+  match v with VBal [] => VBal [amt_of_Z 0] | _ => v end.
+
+(* BALANCE < INTEGER/AMOUNT walks the unordered_map and stops at the first entry that is not
+   below the operand; an entry of another commodity raises an error.  With both kinds of entry
+   present the outcome depends on the hash-table order: the model answers with this marker
+   (no error class of the C++ maps to it) and the correspondence check skips the case. *)
+Definition E_order_dependent : err := ETimelogNoIn.
+
+Definition is_ok_false (r : res bool) : bool := match r with Ok false => true | _ => false end.
+Definition is_err {A} (r : res A) : bool := match r with Err _ => true | _ => false end.
+
+Definition x_ltb (v w : value) : res bool :=
+  match w with
+  | VBal _ => v_ltb (zero_bal v) (zero_bal w)
+  | _ =>
+      match v with
+      | VBal b =>
+          let rs := map (v_gt_amt w) b in
+          if existsb is_ok_false rs && existsb is_err rs then Err E_order_dependent
+          else v_ltb v w
+      | _ => v_ltb v w
+      end
+  end.
+
 Definition arith (ord : bool) (cp : comm -> Z) (k : kind2) (v w : value) : res value :=
   match k with
   | KAdd => v_add ord v w
@@ -527,10 +557,10 @@ Definition arith (ord : bool) (cp : comm -> Z) (k : kind2) (v w : value) : res v
   | KMul => v_mul cp v w
   | KDiv => v_div cp v w
   | KEq => do b <- x_eqb v w; Ok (VBool b)
-  | KLt => do b <- v_ltb v w; Ok (VBool b)
-  | KGt => do b <- v_ltb w v; Ok (VBool b)
-  | KLte => do b <- v_ltb w v; Ok (VBool (negb b))
-  | KGte => do b <- v_ltb v w; Ok (VBool (negb b))
+  | KLt => do b <- x_ltb v w; Ok (VBool b)
+  | KGt => do b <- x_ltb w v; Ok (VBool b)
+  | KLte => do b <- x_ltb w v; Ok (VBool (negb b))
+  | KGte => do b <- x_ltb v w; Ok (VBool (negb b))
   | _ => Err EOther
   end.
 
